@@ -217,6 +217,7 @@ nni_task_wait(nni_task *task)
 	while (task->task_busy) {
 		nni_cv_wait(&task->task_cv);
 	}
+	NNI_VERIF_TRACE("task", task, "wait_done", NULL);
 	nni_mtx_unlock(&task->task_mtx);
 }
 
@@ -250,6 +251,7 @@ nni_task_fini(nni_task *task)
 	while (task->task_busy) {
 		nni_cv_wait(&task->task_cv);
 	}
+	NNI_VERIF_TRACE("task", task, "wait_done", NULL);
 	nni_mtx_unlock(&task->task_mtx);
 	nni_cv_fini(&task->task_cv);
 	nni_mtx_fini(&task->task_mtx);
